@@ -3,6 +3,7 @@
 package checks
 
 import (
+	"encoding/base64"
 	"encoding/json"
 	"fmt"
 	"strings"
@@ -38,6 +39,7 @@ var c03Sigma = [][]string{
 	{"AUTH LOGIN"},
 	{"STARTTLS"},
 	{""},
+	{" "},
 	{"XY"},
 	{strings.Repeat("A", 10000)},
 	{"\x00\xff\x80"},
@@ -72,7 +74,15 @@ type c03Session struct {
 
 // c03Exec runs one sequence in a bubble.  It returns the model-state key.
 func c03Exec(c *fw.Ctx, backend string, seq []int, checkFrom int) (key string, extend, nontrivial bool) {
-	cas := c03Desc(seq)
+	units := make([][]string, len(seq))
+	for i, oi := range seq {
+		units[i] = c03Sigma[oi]
+	}
+	return c03ExecUnits(c, backend, c03Desc(seq), units, checkFrom)
+}
+
+// c03ExecUnits runs a dialogue given as units of lines (cas is what a violation records).
+func c03ExecUnits(c *fw.Ctx, backend string, cas any, seq [][]string, checkFrom int) (key string, extend, nontrivial bool) {
 	extend = true
 	leaked := sys.InBubble(c.T, func() {
 		smtp := sys.DefaultSMTP()
@@ -97,9 +107,9 @@ func c03Exec(c *fw.Ctx, backend string, seq []int, checkFrom int) (key string, e
 			fail("unsolicited", fmt.Sprintf("bytes after the greeting without a command: %q", p))
 		}
 	outer:
-		for si, oi := range seq {
+		for si, unit := range seq {
 			last := si == len(seq)-1
-			for _, line := range c03Sigma[oi] {
+			for _, line := range unit {
 				if ss.ended {
 					break outer
 				}
@@ -285,6 +295,86 @@ func c03Replay(c *fw.Ctx, raw json.RawMessage) {
 
 func init() {
 	fw.Register(&fw.Body{ID: "C03", Part: "seq", Run: c03Run, ReplayCase: c03Replay})
+	fw.Register(&fw.Body{ID: "C03", Part: "auth", Run: c03AuthRun, ReplayCase: c03AuthReplay})
+}
+
+// ---------------------------------------------------------------------------------------------
+// auth clause: the AUTH sub-dialogues with every small credential payload.  Inbucket accepts any
+// credentials; what must hold is "one well-formed reply per line, no input crashes the server".
+
+type c03AuthCase struct {
+	Form    string   `json:"form"`
+	Payload string   `json:"payload"` // decoded credential bytes (quoted)
+	Lines   []string `json:"lines"`
+}
+
+func c03AuthCases() []c03AuthCase {
+	var payloads []string
+	var gen func(cur string)
+	gen = func(cur string) {
+		payloads = append(payloads, cur)
+		if len(cur) == 4 {
+			return
+		}
+		for _, a := range []string{"u", "\x00", "p"} {
+			gen(cur + a)
+		}
+	}
+	gen("")
+	var out []c03AuthCase
+	add := func(form, payload string, lines ...string) {
+		l := append([]string{"EHLO x"}, lines...)
+		l = append(l, "NOOP", "NOOP")
+		out = append(out, c03AuthCase{Form: form, Payload: fmt.Sprintf("%q", payload), Lines: l})
+	}
+	for _, p := range payloads {
+		b := base64.StdEncoding.EncodeToString([]byte(p))
+		add("plain-inline", p, "AUTH PLAIN "+b)
+		add("plain-two-step", p, "AUTH PLAIN", b)
+		add("login", p, "AUTH LOGIN", b, b)
+	}
+	for _, raw := range []string{"!!!", "=", "dXNlcg", "*", "dXNlcgBzZWNyZXQ= x", strings.Repeat("QUJD", 300)} {
+		add("plain-inline-raw", raw, "AUTH PLAIN "+raw)
+		add("plain-two-step-raw", raw, "AUTH PLAIN", raw)
+		add("login-raw", raw, "AUTH LOGIN", raw, raw)
+		add("login-inline-raw", raw, "AUTH LOGIN "+raw, raw)
+	}
+	add("unknown-mechanism", "", "AUTH CRAM-MD5")
+	add("bare", "", "AUTH")
+	return out
+}
+
+func c03AuthRun(c *fw.Ctx) {
+	for i, cas := range c03AuthCases() {
+		if !c.Mine(i + 1) {
+			continue
+		}
+		if c.Expired() {
+			return
+		}
+		cas := cas
+		if !c.Begin(func() any { return cas }) {
+			continue
+		}
+		c.Guard("smtp", cas, func() { c03AuthExec(c, cas) })
+		c.Nontrivial(1)
+	}
+}
+
+func c03AuthExec(c *fw.Ctx, cas c03AuthCase) {
+	units := make([][]string, len(cas.Lines))
+	for i, l := range cas.Lines {
+		units[i] = []string{l}
+	}
+	c03ExecUnits(c, "mem", cas, units, 0)
+}
+
+func c03AuthReplay(c *fw.Ctx, raw json.RawMessage) {
+	var cas c03AuthCase
+	if err := json.Unmarshal(raw, &cas); err != nil {
+		c.T.Fatalf("VERIF-INFRA bad case: %v", err)
+	}
+	c.Guard("smtp", cas, func() { c03AuthExec(c, cas) })
 }
 
 // ---------------------------------------------------------------------------------------------
